@@ -803,6 +803,25 @@ class C11(Base):
         rng = rnd("C11v", seed, result["id"])
         for k in engine.choose_crash_points(info["events"], 0, rng, C11.budgets[tier]["crash_limit"]):
             yield engine.crash_variant(plan, li, k)
+        # errno faults on the flush / compaction output, the index replacement and the reclaim: a failed operation must not
+        # leave the index or the live list naming an incomplete segment, nor touch a published one
+        classes = sorted({(op, pc) for _, op, pc in info["events"]
+                          if op in ("open", "write", "rename", "mkdir", "fsync", "unlink", "rmdir")
+                          and (pc.startswith("seg") or pc in ("segment-dir", "reclaim", "shard-dir"))})
+        rng.shuffle(classes)
+        # the data-bearing files first (a small batch must always fail a column write and a column sync)
+        first = [c for c in classes if c in (("write", "seg-col"), ("fsync", "seg-col"), ("write", "seg-zfc"), ("write", "seg-zones"))]
+        classes = first + [c for c in classes if c not in first]
+        for op, pc in classes[: (8 if tier == "quick" else 60)]:
+            p = copy.deepcopy(plan)
+            p.pop("id", None)
+            glob = {"segidx-tmp": "*segments.idx.tmp", "segidx": "*segments.idx", "segment-dir": "cols/*/*",
+                    "reclaim": "cols/*/.reclaim*", "shard-dir": "cols/shard-*"}.get(pc, "cols/*/*/*." + pc[4:])
+            p["lifetimes"][li]["io_faults"] = [{"id": f"e-{op}-{pc}", "op": op, "path": glob,
+                                                 "nth": rng.choice([1, 2, 3, 5]) if (op, pc) != ("write", "seg-col") else rng.choice([2, 4, 6]),
+                                                 "errno": rng.choice(["EIO", "ENOSPC", "EACCES"])}]
+            p["opts"] = dict(p.get("opts") or {}, faulty=True)
+            yield p
 
 
 
